@@ -4,6 +4,7 @@
    (DecodeV3000(RenderV3000(M, c)) = M,  DecodeV2000(RenderV2000(M, c)) = M).
    The same runs print the texts for the replayer (spec -> code).                              *)
 EXTENDS MolV2000, Json
+TrueConst == TRUE
 CONSTANTS Emit,        \* TRUE: print every rendered text (spec -> code replay)
           Family       \* which part of the choice space: "small", "cont", "all"
 
@@ -16,7 +17,9 @@ Mols == <<
   [atoms |-> <<At("Og", 0, 3, 294, "10000.1234")>>, bonds |-> {}],
   [atoms |-> <<At("H", 1, 0, 0, "0"), At("H", 0, 2, 2, "0")>>, bonds |-> {}],
   [atoms |-> <<At("C", 0, 0, 0, "0.5"), At("H", 0, 0, 3, "1.5"), At("H", 0, 0, 2, "2.5"), At("H", 0, 0, 0, "3.5"), At("C", 3, 0, 0, "4.5")>>,
-   bonds |-> {<<0, 1, 1>>, <<0, 2, 1>>, <<0, 3, 1>>, <<0, 4, 3>>}]
+   bonds |-> {<<0, 1, 1>>, <<0, 2, 1>>, <<0, 3, 1>>, <<0, 4, 3>>}],
+  \* D and T next to another labelled atom: M  ISO lines and D / T symbols in one file
+  [atoms |-> <<At("H", 0, 0, 2, "0.0"), At("O", 0, 0, 18, "1.0"), At("H", 0, 0, 3, "2.0")>>, bonds |-> {<<0, 1, 1>>, <<1, 2, 1>>}]
 >>
 IdxMaps(n) == {[k \in 1..n |-> k], [k \in 1..n |-> 3 * (n - k + 1)], [k \in 1..n |-> 998 + ((k * k) % 7) + (10 * k)]}
 
